@@ -32,6 +32,10 @@ var contents = [][]byte{
 	[]byte("*."), []byte("xn--"), {0x01, 0x02, 0x03},
 }
 
+// reduced content alphabets of the compound edit dupMod (it already costs two positions per edit)
+var dupModSet = [][]byte{{}, {0x00}, {0xC2}, {0x2A}, {0x20}, {0x2E}, []byte("a@")}
+var dupModAppend = [][]byte{{0x00}, {0xC2}, {0x20}, {0x2E}}
+
 func isStringLeaf(n *Node) bool {
 	if n.Constructed || n.Wrapped {
 		return false
@@ -139,6 +143,25 @@ func Successors(root, sub *Node, emit Emit) {
 				out("swapNext")
 			}
 			p.Children = saved
+			// compound edit "a second, different element": n is duplicated and ONE leaf of the copy is
+			// edited; the copy goes after (A) or before (B) the original. Counted as one deviation: it is
+			// the smallest change that gives a list two *unequal* elements, which plain dup cannot, and
+			// lints that look at the first / last element only are the classic defect of a linter.
+			if listElement(n, p) && n.Count() <= 10 {
+				dupMod(n, func(pos byte, li int, op string, cp *Node) {
+					nk = make([]*Node, 0, len(saved)+1)
+					nk = append(nk, saved[:i]...)
+					if pos == 'A' {
+						nk = append(nk, saved[i], cp)
+					} else {
+						nk = append(nk, cp, saved[i])
+					}
+					nk = append(nk, saved[i+1:]...)
+					p.Children = nk
+					out(fmt.Sprintf("dm%c:l%d:%s", pos, li, op))
+					p.Children = saved
+				})
+			}
 		}
 		saved := *n
 		// empty
@@ -210,6 +233,69 @@ func Successors(root, sub *Node, emit Emit) {
 				out("str:" + names[i])
 			}
 			*n = saved
+		}
+	}
+}
+
+// listElement: n sits in something that looks like SEQUENCE OF / SET OF — every sibling has n's
+// identifier, or all are context-tagged (GeneralNames), or the parent is a SET (an RDN).
+func listElement(n, p *Node) bool {
+	if !p.Constructed || p.Wrapped && len(p.Children) == 0 {
+		return false
+	}
+	if p.Class == 0 && p.Tag == 17 {
+		return true
+	}
+	same, ctx := true, true
+	for _, c := range p.Children {
+		if c.Class != n.Class || c.Tag != n.Tag || c.Constructed != n.Constructed {
+			same = false
+		}
+		if c.Class != 2 {
+			ctx = false
+		}
+	}
+	return same || ctx
+}
+
+// dupMod enumerates clones of n in which exactly one primitive leaf carries one content-level edit.
+func dupMod(n *Node, emit func(pos byte, leaf int, op string, cp *Node)) {
+	cp := n.Clone()
+	var leaves []*Node
+	cp.Walk(func(x, _ *Node, _ int) {
+		if !x.Constructed && !x.Wrapped {
+			leaves = append(leaves, x)
+		}
+	})
+	for li, l := range leaves {
+		if l.Class == 0 && l.Tag == 6 {
+			continue // the OID of an attribute / extension stays: the copy is a second element of the same type
+		}
+		orig := l.Content
+		try := func(op string, c []byte) {
+			if bytes.Equal(c, orig) {
+				return
+			}
+			l.Content = c
+			emit('A', li, op, cp)
+			emit('B', li, op, cp)
+			l.Content = orig
+		}
+		for _, c := range dupModSet {
+			try(fmt.Sprintf("set:%x", c), c)
+		}
+		for _, c := range dupModAppend {
+			try(fmt.Sprintf("append:%x", c), append(append([]byte(nil), orig...), c...))
+		}
+		if len(orig) > 0 {
+			try("dropLast", orig[:len(orig)-1])
+			try("dropFirst", orig[1:])
+		}
+		if isStringLeaf(l) {
+			names, outs := strEdits(orig)
+			for i := range names {
+				try("str:"+names[i], outs[i])
+			}
 		}
 	}
 }
